@@ -17,7 +17,7 @@ CONSTANTS
   StakingDelay = 2
   VotingDelay = 2
   MaxHeight = 5
-  MaxDiscards = 2
+  MaxDiscards = 0
   MaxOps = 6
 VIEW viewAbs
 INVARIANTS TypeOK TotalIsSum Conservation TallyIsSumOfVotes VoteTotalIsSum VoteLeStake UnsetIsEmpty VprIsVotes RankingIsSorted NameWellFormed ParamMemEqualsState ParamsPositive
